@@ -43,6 +43,7 @@ ASSUMPTIONS = ["NFC is idempotent; json.loads(json.dumps(md)) == md for the gene
                "produce such length fields"]
 
 import json
+import os
 import unicodedata
 
 import common
@@ -782,8 +783,24 @@ def gen_immutable_case(rng, nmax):
     return c
 
 
+def lit(data):
+    """hex of a well-formed URI:LIT: cap"""
+    import base64
+    return (b"URI:LIT:" + base64.b32encode(data).rstrip(b"=").lower()).hex()
+
+
+# fixed corpus (runs first, independent of VERIF_SEED): one minimal child set per known mechanism
 CORPUS = [
     {"children": []},
+    # names that change under NFC without containing a combining mark (seeded C19-a: "no combining mark => already NFC")
+    {"children": [["\u212b", None, lit(b"a"), 0, {}], ["\u2126hm", None, lit(b"bb"), 0, {"k": 1}],
+                  ["\u1112\u1161\u11ab", None, lit(b"ccc"), 0, {}], ["\uf900", None, lit(b"dddd"), 0, {}],
+                  ["e\u0301", None, lit(b"e"), 0, {}]]},
+    # children with write caps, so that the listing packed for ANOTHER directory carries rwcapdata under the wrong key
+    # if cached entries are carried over (seeded C19-b)
+    {"children": [["w1", b"URI:SSK:usy3x5usmivdy3saqju3l6mit4:rbnuw7wbbmf2k4kgapbbxgb6j6dyvnj4qxclwf7twwgzu6ewsg5q".hex(), None, 0, {"m": [1, 2]}],
+                  ["w2", b"URI:DIR2:7ycize7cy7zjaqpe63zbmf6ah4:5e7pm3ox4a6gbo4dxbwuy2gdjlu6l52as4uxw3jjahounvmobodq".hex(), None, 0, {}],
+                  ["r", None, lit(b"r"), 0, {}]]},
     # the open finding `roundtrip-double-prefix`: an unknown cap with two alleged-prefixes
     {"children": [["x", None, (b"ro.ro.URI:MDMF:sackjepwslelfdhcjjccaglbia:m7zimvc4h3shncye5ececu3ygwztma7lnuirgm4z6x55x7dx6jfa").hex(), 0, {}]]},
     # a future-format write cap next to a read cap of a known format
@@ -805,7 +822,7 @@ def run(ctx):
         cases_in = [c["case"] if "case" in c else c]
     else:
         cases_in = [json.loads(json.dumps(c)) for c in CORPUS]
-        for i in range(ctx.budget(120, 2500)):
+        for i in range(0 if os.environ.get("VERIF_CORPUS_ONLY") == "1" else ctx.budget(120, 2500)):
             nmax = 50 if i % 10 == 0 else 20
             cases_in.append(gen_immutable_case(ctx.rng, nmax) if ctx.rng.random() < 0.3 else gen_case(ctx.rng, nmax))
     lines, impls, cases = [], [], []
